@@ -1,13 +1,16 @@
 """C01 -- lossless CST (DESIGN 5.1)."""
 import json
 from framework import *
+import svgen, lexcheck
 import svx_grammar, svx_schema, snippets, svtree
 
 PARTIAL = ("run_tiles is proved for every grammar passing the static check and every behaviour of the span primitives / hand "
            "lexers (they are oracles of the interpreter); the regenerated grammar passes the check by computation. Not "
-           "proved: that each of the 24 hand lexers returns exactly the span it consumed (pinned by source hash, tied by the "
-           "tiling oracle on real trees) and get_str's slice arithmetic on the real String; non-emptiness of leaves is proved "
-           "(C01_leaves_nonempty) under the oracle hypothesis that primitives consume at least one byte when they succeed")
+           "proved: that each hand lexer returns exactly the span it consumed (tested on the real functions through hook 5 on "
+           "every run, and tied by the tiling oracle on real trees) and get_str's slice arithmetic on the real String; "
+           "non-emptiness of leaves is proved (C01_leaves_nonempty) under the hypothesis that primitives consume at least one "
+           "byte when they succeed -- a theorem for the 15 token lexers written by hand (C01_token_lexers_consume, over their "
+           "regenerated tables, model run against the real functions), tested for the 13 free-text lexers")
 
 HAND = [
     ("sv", "module m; initial begin x = obj.a().b().c(); y = o.f(1).g(2, 3).h().i(); end endmodule\n"),
@@ -59,17 +62,22 @@ def check(ctx):
     ctx.obl("regenerated:children are enumerated in declaration order (derive(Node) and the hand-written RefNodes conversions)",
             "regenerated", not badc and all(dfacts.values()) and len(co) >= 20, "not identity: %s %s" % (badc, dfacts))
     build_impl(ctx)
+    lexcheck.obligation(ctx, "C01", {"pos", "span"})
+    lexcheck.correspond(ctx)
     r = ctx.rng
     q = ctx.quick()
     deep = bool(changed) or any(not o.ok for o in ctx.obls)      # change-triggered deepening
     pool = snippets.sv_sources()
     n = len(pool) if (deep or not q) else 120
     srcs = list(HAND) + r.sample(pool, min(n, len(pool)))
+    n_main = len(srcs)
+    # declarations with their qualifiers in every order (mostly not SystemVerilog): whatever is accepted must tile
+    srcs += svgen.qualifier_orders()
     ctx.cov["deepened"] = deep
     cases, meta = [], {}
     for i, (k, src) in enumerate(srcs):
         for inc in (0, 1):
-            if inc and i % 3 and q and not deep:
+            if inc and (i >= n_main or (i % 3 and q and not deep)):
                 continue
             c = Case("s%d_%d" % (i, inc))
             s2 = src + ("\n) garbage ( endmodule" if inc else "")
